@@ -1,6 +1,12 @@
 (* Props/C03Kr.v — sparse * Kruskal and sparse / Kruskal (pyttb.sptensor.__mul__ / __truediv__ with a ktensor operand; the
    "gather ... Kruskal values at stored subscripts" mechanism of the property's anchors).  Only statements, `exact`,
-   Print Assumptions.  impl_mul_k / impl_div_k transliterate pyttb's double loop (for r in range(R): for n in range(N): ...
+   Print Assumptions.
+   CLAIMED for S * K: C03_mul_kruskal_filtered — the code as it is since /repo d4293a0 (findings C03-K1 / C03-K2 repaired: the
+   loops followed by keep = cvals[:, 0] != 0) returns a FULLY well-formed tensor holding the element-wise product at every position;
+   list-for-list forms and the early return for an empty operand: Props/C03W5.v.  C03_mul_kruskal / _wf_iff / _Z / _Z_wf_iff /
+   _wf_refuted are statements about the loops BEFORE the filter (impl_mul_k = the intermediate csubs, cvals): kept as lemmas and as
+   the record of why the filter is needed (they were the presentation of the then-open finding C03-K2 in wave 4).
+   impl_mul_k / impl_div_k transliterate pyttb's double loop (for r in range(R): for n in range(N): ...
    cvals += tvals) column for column (Model/C03Kr.v); V is any commutative ring; operands are arbitrary structurally
    well-formed coordinate lists in any stored order, any rank R >= 0 (R = 0: every product is 0), any number of modes. *)
 From Coq Require Import List Arith Bool ZArith Ring.
@@ -16,22 +22,23 @@ Hypothesis Vring : ring_theory v0 v1 vadd vmul vsub vopp (@eq V).
 Notation den := (den_sp v0).
 Notation denk := (den_k v0 v1 vadd vmul).
 
-(* S * K: the loops return the stored rows of S in their stored order, each with x * K[s] (list for list); the result is
-   structurally well-formed and denotes the element-wise product at EVERY position *)
+(* the loops (before the filter) hold the stored rows of S in their stored order, each with x * K[s] (list for list): structurally
+   well-formed, the element-wise product at EVERY position *)
 Theorem C03_mul_kruskal : forall (A : sparse V) (K : ktensor V), wf_struct A -> kshape K = sshape A ->
   impl_mul_k v0 vadd vmul A K = mkSp (sshape A) (ssubs A) (zipw (fun x s => vmul x (denk K s)) (svals A) (ssubs A)) /\
   wf_struct (impl_mul_k v0 vadd vmul A K) /\ sshape (impl_mul_k v0 vadd vmul A K) = sshape A /\
   forall i, den (impl_mul_k v0 vadd vmul A K) i = vmul (den A i) (denk K i).
 Proof. exact (impl_mul_k_correct V v0 v1 vadd vmul vsub vopp Vring). Qed.
 
-(* ... and it is fully well-formed (no explicit zero) exactly when no stored product vanishes: the code has no filter
-   (finding C03-K2; the dense branch of __mul__ has one) *)
+(* ... and that intermediate is fully well-formed (no explicit zero) exactly when no stored product vanishes: this is what the
+   filter removes (repaired finding C03-K2) *)
 Theorem C03_mul_kruskal_wf_iff : forall (isz : V -> bool), (forall v, isz v = true <-> v = v0) ->
   forall (A : sparse V) (K : ktensor V), wf_struct A -> kshape K = sshape A ->
   (wf_sp isz (impl_mul_k v0 vadd vmul A K) <-> forall s, In s (ssubs A) -> vmul (den A s) (denk K s) <> v0).
 Proof. intros isz Hz. exact (impl_mul_k_wf_iff V v0 v1 vadd vmul vsub vopp isz Vring Hz). Qed.
 
-(* with the filter of the dense branch (keep = cvals[:, 0] != 0), the repair proposed for C03-K2: fully well-formed *)
+(* THE CLAIMED THEOREM for S * K — the code as it is (loops + keep = cvals[:, 0] != 0, /repo d4293a0): fully well-formed (no
+   duplicate, no explicit zero), same shape, the element-wise product at EVERY position; any commutative ring, rank, order, stored order *)
 Theorem C03_mul_kruskal_filtered : forall (isz : V -> bool), (forall v, isz v = true <-> v = v0) ->
   forall (A : sparse V) (K : ktensor V), wf_struct A -> kshape K = sshape A ->
   wf_sp isz (impl_mul_k_filtered v0 vadd vmul isz A K) /\ sshape (impl_mul_k_filtered v0 vadd vmul isz A K) = sshape A /\
@@ -57,7 +64,7 @@ Theorem C03_mul_kruskal_Z : forall (A : sparse Z) (K : ktensor Z), wf_struct A -
   forall i, zden_sp (zmul_k A K) i = zden_sp A i * zden_k K i.
 Proof. exact zmul_k_correct. Qed.
 
-(* exact class of finding C03-K2 over Z: an explicit zero is stored iff the Kruskal tensor vanishes at a stored subscript *)
+(* over Z: the intermediate holds an explicit zero iff the Kruskal tensor vanishes at a stored subscript (class of the repaired C03-K2) *)
 Theorem C03_mul_kruskal_Z_wf_iff : forall (A : sparse Z) (K : ktensor Z), wf_sp zisz A -> kshape K = sshape A ->
   (wf_sp zisz (zmul_k A K) <-> forall s, In s (ssubs A) -> zden_k K s <> 0).
 Proof. exact zmul_k_wf_iff. Qed.
